@@ -57,6 +57,13 @@ def gen_case(r, idx):
     tree[b"sel/ect/inner"] = Node("file", 0o644, data=[("bytes", b"inner")])
     tree[b"sel/ect/sub"] = Node("dir", 0o755)
     tree[b"sel/ect/sub/deep"] = Node("slink", 0o777, target=b"../inner")
+    # for tar2sqfs --root-becomes sel: links below the new root with targets inside, outside and shaped like the root path
+    tree[b"sel/hl-inner"] = Node("file", link_to=b"sel/ect/inner")
+    tree[b"sel/sel"] = Node("dir", 0o755)
+    tree[b"sel/sel/ect"] = Node("dir", 0o755)
+    tree[b"sel/sel/ect/inner"] = Node("file", 0o644, data=[("bytes", b"decoy")])
+    for nm, tg in ((b"l_abs", b"/abs/target"), (b"l_pref", b"sel/ect/inner"), (b"l_abspref", b"/sel/ect/inner"), (b"l_dot", b"./x/../y"), (b"l_dbl", b"a//b"), (b"l_up", b"../sel/e")):
+        tree[b"sel/" + nm] = Node("slink", 0o777, target=tg)
     for nm in (b"s", b"se", b"sel/e", b"sel/ec", b"sel/ect2", b"other"):
         tree[nm] = Node("file", 0o644, data=[("bytes", nm)]) if nm != b"other" else Node("dir", 0o755)
     tree[b"other/x"] = Node("fifo", 0o600)
@@ -322,9 +329,121 @@ def run_case(arg):
                     for p, e in tmo.items():
                         if e["type"] == "file" and e["sha256"] != m1[p]["sha256"]:
                             oc.violate("sqfs2tar:no-hard-links:content", repr(p))
+            # ---- tar2sqfs --root-becomes: "the specified directory becomes the root; only its children are packed and its attributes are
+            # stored in the root inode"; "link targets are adjusted if they are prefixed by the root path; with -S symlinks are left untouched
+            # and only hard links are changed"
+            if b"sel" in m1 and m1[b"sel"]["type"] == "dir":
+                for ropt in (["-r", "sel"], ["-r", "sel", "-S"]):
+                    ir = os.path.join(work, "ir.sqfs")
+                    if os.path.exists(ir):
+                        os.unlink(ir)
+                    res = core.run_tool([B["tar2sqfs"]] + base + ropt + [ir], stdin_file=tf, timeout=300)
+                    oc.inc("tar2sqfs_root_becomes_runs")
+                    tag = "root-becomes%s" % ("-S" if "-S" in ropt else "")
+                    if res.san or res.rc != 0:
+                        oc.violate(res.san or "tar2sqfs:%s:fails" % tag, "rc=%s %s" % (res.rc, res.err[-200:]), {"a.tar": tar[:1 << 20]})
+                        continue
+                    mr = sqfsimg.tree_model(sqfsimg.parse(open(ir, "rb").read()))
+                    want = {}
+                    for q, e in m1.items():
+                        if q == b"sel":
+                            k = b""
+                        elif q.startswith(b"sel/"):
+                            k = q[4:]
+                        else:
+                            continue
+                        e = dict(e)
+                        if e["type"] == "slink" and "-S" not in ropt:
+                            c = _canon(e["target"])
+                            if c is not None and c.startswith(b"sel/"):
+                                e["target"] = c[3:]
+                        want[k] = e
+                    if set(want) != set(mr):
+                        oc.violate("tar2sqfs:%s:paths" % tag, "missing %r extra %r" % (sorted(set(want) - set(mr))[:3], sorted(set(mr) - set(want))[:3]), {"a.tar": tar[:1 << 20]})
+                        continue
+                    for k in want:
+                        fields = ("type", "mode", "uid", "gid") if k == b"" else ("type", "mode", "uid", "gid", "target", "devno", "size", "sha256", "xattrs")
+                        bad = [f for f in fields if want[k].get(f) != mr[k].get(f)]
+                        if bad:
+                            oc.violate("tar2sqfs:%s:%s" % (tag, bad[0]), "%r: expected %r, image has %r" % (k, want[k].get(bad[0]), mr[k].get(bad[0])), {"a.tar": tar[:1 << 20]})
+                            break
+                    else:
+                        gw = sorted(sorted(q[4:] for q in v if q.startswith(b"sel/")) for v in _groups(m1).values())
+                        gw = [g for g in gw if g]
+                        gr = sorted(sorted(v) for v in _groups(mr).values() if v != [b""])
+                        if gw != gr:
+                            oc.violate("tar2sqfs:%s:hardlink-groups" % tag, "%r vs %r" % ([g for g in gw if len(g) > 1][:3], [g for g in gr if len(g) > 1][:3]), {"a.tar": tar[:1 << 20]})
+                        else:
+                            oc.inc("root_becomes_ok")
     except Exception:
         oc.inconclusive.append("harness exception: %s" % traceback.format_exc()[-900:])
     return oc
+
+
+def socket_case(arg):
+    """Images with socket inodes (which tar cannot express) from the independent writer: sqfs2tar must skip exactly the sockets, say so,
+    and every other entry must come out with its own name, attributes and xattrs."""
+    idx, tier = arg
+    oc = core.Outcome("sock-%d" % idx)
+    try:
+        B = build.build("asan")
+        r = core.rng_for(PROP, "sock", idx)
+        long_dir = b"d" * r.choice([60, 99, 100, 120])
+        t = {b"": Node("dir", 0o755), b"a": Node("file", 0o644, data=[("bytes", b"first")]), long_dir: Node("dir", 0o755),
+             b"plain.sock": Node("sock", 0o600), b"plain.sock.after": Node("file", 0o644, data=[("bytes", b"after plain")]),
+             b"x.sock": Node("sock", 0o666, xattrs={b"user.onsocket": b"1", b"user.second": b"2"}),
+             b"x.sock.after": Node("slink", 0o777, target=b"a"),
+             long_dir + b"/" + b"s" * 50 + b".sock": Node("sock", 0o644),
+             long_dir + b"/" + b"t-after": Node("file", 0o644, data=[("bytes", b"after long")], xattrs={b"user.mine": b"yes"} if idx % 2 else {}),
+             long_dir + b"/" + b"u-fifo": Node("fifo", 0o600),
+             b"zz-last.sock": Node("sock", 0o600, xattrs={b"user.tail": b"x" * 80})}
+        if idx % 3 == 0:
+            t[b"zz-last.sock.after"] = Node("file", 0o644, data=[("bytes", b"last")])
+        img, fmap, info = sqfsimg.build_image(t)
+        oc.features = ("sockets", len(long_dir), idx % 2, idx % 3)
+        with core.Scratch("c04s") as work:
+            ip = os.path.join(work, "i.sqfs")
+            with open(ip, "wb") as f:
+                f.write(img)
+            for sopt in ([], ["-r", "root"], ["-X"]):
+                res = core.run_tool([B["sqfs2tar"]] + sopt + [ip], timeout=120)
+                oc.inc("socket_image_runs")
+                if res.san or res.rc != 0:
+                    oc.violate(res.san or "sqfs2tar:sockets:fails", "rc=%s %s" % (res.rc, res.err[-200:]), {"image.sqfs": img})
+                    continue
+                try:
+                    tmo, order = tarmodel.read_tar(res.out)
+                except Exception as e:
+                    oc.violate("sqfs2tar:sockets:python-tarfile-rejects", repr(e)[:200], {"image.sqfs": img})
+                    continue
+                pre = b"root/" if sopt[:1] == ["-r"] else b""
+                want = {pre + q: n for q, n in t.items() if q and n.type != "sock"}
+                got = {q: e for q, e in tmo.items() if q not in (b"root", b".")}
+                if set(want) != set(got):
+                    oc.violate("sqfs2tar:sockets:paths", "opts %s: missing %r unexpected %r" % (sopt, sorted(set(want) - set(got))[:3], sorted(set(got) - set(want))[:3]), {"image.sqfs": img})
+                    continue
+                for q, n in want.items():
+                    e = got[q]
+                    wx = sorted(n.xattrs.items()) if "-X" not in sopt else []
+                    if e["type"] != n.type or e["mode"] != n.mode & 0o7777 or sorted(e.get("xattrs") or []) != wx or (n.type == "slink" and e["target"] != n.target):
+                        oc.violate("sqfs2tar:sockets:entry-differs", "opts %s %r: %r" % (sopt, q, e), {"image.sqfs": img})
+                        break
+                else:
+                    oc.inc("socket_images_ok")
+                if b"sock" not in res.err.lower() and b"skip" not in res.err.lower():
+                    oc.violate("sqfs2tar:sockets:no-warning", "stderr %r" % res.err[-200:])
+        oc.sample = {"case": "sockets-%d" % idx, "long_dir": len(long_dir)}
+    except Exception:
+        oc.inconclusive.append("harness exception: %s" % traceback.format_exc()[-900:])
+    return oc
+
+
+def _canon(p):
+    """Path canonicalisation as specified (C18): None iff a component is '..'; no leading/trailing/repeated slashes, no '.' components."""
+    comps = [c for c in p.split(b"/") if c not in (b"", b".")]
+    if any(c == b".." for c in comps):
+        return None
+    return b"/".join(comps)
 
 
 def _groups(m):
@@ -343,6 +462,8 @@ def main(tier):
     build.build("asan")
     n = 200 if tier == "quick" else 2500
     items = [(i, tier) for i in range(n)]
+    for oc in core.pmap(socket_case, [(i, tier) for i in range(6 if tier == "quick" else 48)]):
+        rep.add(oc)
     only = os.environ.get("VERIF_ONLY")
     if only:
         items = [(int(only), tier)]
